@@ -193,6 +193,10 @@ def _run_deductive(c, case_id, case, cfg, out):
     for m in merged.values():
         if m["status"] != "violated":
             continue
+        if not c.replayable:
+            m["replay"] = {"confirmed": False, "not_replayable": True,
+                           "observed": "solver refuted the obligation; the counter-model lives in the array-theory heap and cannot be built as real objects"}
+            continue
         H, exc = replay_native(c.body, case, m.get("model") or {}, m.get("choices") or {}, tier=_W["tier"])
         rep = {"confirmed": False, "observed": None}
         if m["check"] == "no_unexpected_exception":
@@ -216,7 +220,7 @@ def _run_deductive(c, case_id, case, cfg, out):
         m["replay"] = rep
     out["obligations"] = list(merged.values())
     # engine-vs-CPython differential on concrete inputs
-    n_diff = cfg.get("selfcheck_samples", 2)
+    n_diff = cfg.get("selfcheck_samples", 2) if c.replayable else 0
     sc = {"samples": 0, "mismatches": []}
     rng = random.Random(f"{_W['seed']}/{c.name}/{case_id}")
     for _ in range(n_diff):
@@ -341,6 +345,8 @@ def main(argv=None):
 
 def report(prop, tier, seed, contracts, results, args, wall):
     known, fixed_lines = load_known_findings()
+    _lp = os.path.join(VERIF, "contracts", "LEDGER.json")
+    ledger_all = json.load(open(_lp)) if os.path.exists(_lp) else {}
     bycontract = {c.name: c for c in contracts}
     obligations = 0
     discharged = 0
@@ -391,6 +397,10 @@ def report(prop, tier, seed, contracts, results, args, wall):
                 if ob["check"] == "no_unexpected_exception":
                     continue
                 ok = ob["status"] == "violated" and rep.get("confirmed")
+                if not c.replayable:
+                    # heap contracts: the false clause must at least NOT be proved (a refutation of a
+                    # quantified formula usually comes back unknown)
+                    ok = ob["status"] != "discharged"
                 canaries.append({"obligation": ob_id, "refuted_and_replayed": bool(ok), "model": ob.get("model")})
                 if not ok:
                     defects.append(f"canary {ob_id} was not refuted+replayed (status {ob['status']}, {rep})")
@@ -436,6 +446,15 @@ def report(prop, tier, seed, contracts, results, args, wall):
                             deductive_obs -= 1
                     else:
                         violations.append(entry)
+                elif rep.get("not_replayable"):
+                    in_ledger = ob_id in set(ledger_all.get(prop, {}).get(tier, []))
+                    if k:
+                        known_hits.append((k, entry))
+                    elif in_ledger:
+                        entry["no_input"] = True
+                        violations.append(entry)
+                    else:
+                        undecided.append({"obligation": ob_id, "why": "refuted by the solver, not replayable and not in the ledger of discharged obligations"})
                 elif rep.get("native_exception") or "rejected" in (rep.get("observed") or ""):
                     undecided.append({"obligation": ob_id, "why": f"refuted but replay inconclusive: {rep.get('observed')}"})
                 else:
@@ -483,8 +502,11 @@ def report(prop, tier, seed, contracts, results, args, wall):
             "native_replay": v["replay"], "targets": c.targets, "doc": c.doc,
             "rerun": f"./check {prop} --replay {fn}",
         }
+        if v.get("no_input"):
+            rec["note"] = ("obligation discharged on the unchanged tree (contracts/LEDGER.json) is now refuted by the solver; "
+                           "no concrete failing input could be constructed from the counter-model")
         json.dump(rec, open(fn, "w"), indent=1, default=repr)
-        lines.append(f"VIOLATION property={prop} replay={fn}")
+        lines.append(f"VIOLATION property={prop} replay={fn}" + (" no-failing-input-found" if v.get("no_input") else ""))
         rc = 1
     for l in lines:
         print(l)
